@@ -52,7 +52,7 @@ CHECKS = [
     chk("C07", ENGINE + "Every operation is also run through table.NativeBackend from the serialised state and the two "
         "states are compared as JSON; a reflect-based schema pin guards new fields." + PART, BASE_NOTE + "encoding/json is modelled, not verified.",
         "Coq proof over a Gallina model + differential correspondence (in-memory vs JSON-rebuilt vs model)", "DESIGN.md §4 C07, §9"),
-    chk("C08", SEAT + "Reported against known finding F11. Proved for every state: positions land on playable seats, and the blinds rule in the state after Next (first playable seat after the dealer / after the small blind; dealer = small blind when two seats could play), which pins F11 down to its shape; the newcomer clause is decided by the scenario oracle." + PART, BASE_NOTE,
+    chk("C08", SEAT + "Reported against known finding F11. Proved for every state: positions land on playable seats, and the blinds rule in the state after Next (first playable seat after the dealer / after the small blind; dealer = small blind when two seats could play), which pins F11 down to its shape; Next switches off exactly the empty seats between the dealer and the big blind, and a newcomer on such a seat becomes playable at exactly the Next whose scan no longer covers the seat (one Next at a time; whole sequences by the scenario oracle)." + PART, BASE_NOTE,
         "Coq proof over a Gallina model + complete-graph correspondence for small tables", "DESIGN.md §4 C08, §9"),
     chk("C09", REG + "Proved for every history of the regulator with instruction-following tables (any map iteration order): every living player is in exactly one place, the player total, table count and per-table counts are the real numbers; unknown tables and late registrations are refused without change." + PART,
         BASE_NOTE, "Coq proof over a Gallina model + differential correspondence with the Go code", "DESIGN.md §4 C09, §9"),
@@ -76,14 +76,14 @@ CHECKS = [
         "on the implementation's output and supplies concrete replays." + PART,
         BASE_NOTE + "Eligible players of a pot are read as its non-folded entries (folded players are put back for display).",
         "Coq proof over a Gallina model + differential correspondence with the Go code", "DESIGN.md §4 C16, §9"),
-    chk("C17", SEAT + "Proved for every history: the button moves to the first playable seat after it, or Next is refused when fewer than two seats can play." + PART, BASE_NOTE,
+    chk("C17", SEAT + "Proved for every history: the button moves to the first playable seat after it, and Next is refused exactly when fewer than two seats can play." + PART, BASE_NOTE,
         "Coq proof over a Gallina model + complete-graph correspondence for small tables", "DESIGN.md §4 C17, §9"),
     chk("C18", SEAT + "Proved for every history: seated players = successful joins - successful leaves; join/leave refusals and "
-        "effects. Partial on the schedule quantifier: each method is taken as atomic under sm.mu (supported by a goroutine "
+        "effects; join-any takes an empty non-reserved seat and reports none-available only when that is true. Partial on the schedule quantifier: each method is taken as atomic under sm.mu (supported by a goroutine "
         "stress run, not proved)." + PART, BASE_NOTE + "sync.RWMutex atomicity is modelled, not verified.",
         "Coq proof over a Gallina model + complete-graph correspondence + goroutine stress", "DESIGN.md §4 C18, §9"),
     chk("C19", REG + "Reported against known finding F12a (over-capacity table requests). Proved: nothing is handed out while "
-        "pending, no table below the minimum, every initial table gets the minimum; the capacity clause itself is decided by the oracle." + PART, BASE_NOTE,
+        "pending, no table below the minimum, every initial table gets the minimum; a top-up by SyncState stays within the capacity; the first table of an allocation is within the capacity and a later one exceeds it only in F12a's shape (the shape the oracle uses to recognise the known finding; any other over-capacity request is a violation)." + PART, BASE_NOTE,
         "Coq proof over a Gallina model + differential correspondence with the Go code", "DESIGN.md §4 C19, §9"),
     chk("C20", REG + "Proved: a table that is told to break releases everybody it has, and handing players back places each of them in the queue or at a table. The settling bound is tested "
         "(sweeps until quiet within 12), not proved." + PART, BASE_NOTE,
